@@ -1,13 +1,15 @@
 import SwiftMT.Props.C05
 import SwiftMT.Props.C11
 import SwiftMT.Lemmas.RoundTrip
+import SwiftMT.Lemmas.Amount
+import SwiftMT.Props.C07
 /-
 C02 — MT round trip is stable (field level): for every content a field type accepts, serialising the parsed value
 gives a content the field type accepts again, with an equal value; hence the serialisation is a fixed point.
 Stated for ALL accepted texts of each modelled field type.  (Message level: see `reparse_*` below and the oracle.)
 -/
 namespace SwiftMT.Props.C02
-open SwiftMT SwiftMT.Fields SwiftMT.Props.C05
+open SwiftMT SwiftMT.Fields SwiftMT.Props.C05 SwiftMT.Props.C07
 
 /-- A parse/serialise pair is stable when re-reading what was written gives the same value. -/
 def Stable {V : Type} (parse : Text → Res V) (ser : V → Text) : Prop :=
@@ -78,6 +80,585 @@ theorem stable_59A : Stable F59A.parse F59A.ser := stable_of_reproduces _ _ f59A
 theorem stable_optionB : Stable OptB.parse OptB.ser := stable_of_reproduces _ _ optB_reproduces
 /-- 50C -/
 theorem stable_bic : Stable parseBic id := stable_of_reproduces _ _ (fun s v h => parseBic_value s v h)
+
+/-! ### codes, accounts, envelopes, dates and times, statement numbers
+
+Each of these either reproduces the text it read (26T, 25A, 77T, 77A/77B, 23E, 11, 11R/S, 13C, 13D, 51A) or re-formats it
+(25 always writes the slash it may have dropped; 28 / 28C / 28D re-print the numbers: `007/1` comes back as `7/01`), and
+reading the re-formatted text gives the same value. -/
+
+
+
+theorem bind_ok_inv {α β : Type} {x : Res α} {f : α → Res β} {b : β} (h : (x >>= f) = .ok b) :
+    ∃ a, x = .ok a ∧ f a = .ok b := by
+  cases x with
+  | ok a => exact ⟨a, rfl, h⟩
+  | err => simp at h
+  | panic => simp at h
+
+theorem parseExactLength_ok {t v : Text} {n : Nat} (h : parseExactLength t n = .ok v) : v = t := by
+  unfold parseExactLength at h; split at h
+  · cases h; rfl
+  · cases h
+
+theorem parseMaxLength_ok {t v : Text} {n : Nat} (h : parseMaxLength t n = .ok v) : v = t := by
+  unfold parseMaxLength at h; split at h
+  · cases h; rfl
+  · cases h
+
+/-- 26T -/
+theorem f26T_reproduces (s : Text) (v : Code) (h : F26T.parse s = .ok v) : Code.ser v = s := by
+  unfold F26T.parse at h
+  obtain ⟨c, hc, h2⟩ := bind_ok_inv h
+  have := parseExactLength_ok hc
+  subst this
+  split at h2
+  · cases h2; rfl
+  · cases h2
+
+theorem stable_26T : Stable F26T.parse Code.ser := stable_of_reproduces _ _ f26T_reproduces
+
+/-- 25A -/
+theorem f25A_reproduces (s : Text) (v : Text) (h : F25A.parse s = .ok v) : F25A.ser v = s := by
+  unfold F25A.parse at h
+  split at h
+  · split at h; · cases h
+    split at h; · cases h
+    obtain ⟨_, _, h2⟩ := bind_ok_inv h
+    cases h2; rfl
+  · cases h
+
+theorem stable_25A : Stable F25A.parse F25A.ser := stable_of_reproduces _ _ f25A_reproduces
+
+/-- 77T -/
+theorem f77T_reproduces (s : Text) (v : Text) (h : F77T.parse s = .ok v) : id v = s := by
+  unfold F77T.parse at h
+  split at h; · cases h
+  split at h; · cases h
+  cases h; rfl
+
+theorem stable_77T : Stable F77T.parse id := stable_of_reproduces _ _ f77T_reproduces
+
+/-- 77A, 77B -/
+theorem narrL_reproduces (ml mx : Nat) (s : Text) (v : List Text) (h : NarrL.parse ml mx s = .ok v) : Narr.ser v = s := by
+  unfold NarrL.parse validateMultilineText at h
+  split at h; · cases h
+  split at h; · cases h
+  split at h; · cases h
+  cases h
+  exact joinNl_splitNl s
+
+theorem stable_narrativeL (ml mx : Nat) : Stable (NarrL.parse ml mx) Narr.ser := stable_of_reproduces _ _ (narrL_reproduces ml mx)
+
+/-- 25 (no option): the optional leading slash is not kept, one is always written — read back, the value is the same -/
+theorem stable_25 : Stable F25.parse F25.ser := by
+  intro s v h
+  unfold F25.parse at h
+  simp only at h
+  obtain ⟨a, ha, h2⟩ := bind_ok_inv h
+  have hav := parseMaxLength_ok ha
+  split at h2; · cases h2
+  obtain ⟨_, hsw, h3⟩ := bind_ok_inv h2
+  cases h3
+  -- now v = a = stripped
+  unfold F25.parse F25.ser
+  simp only
+  rw [← hav] at ha
+  rw [ha]
+  simp only [Res.bind_ok]
+  rename_i hne
+  simp only [hne, if_false]
+  rw [hsw]; rfl
+
+theorem head_tail_of_head {l : Text} {c : Char} (h : l.head? = some c) : l = c :: l.tail := by
+  cases l with
+  | nil => simp at h
+  | cons a as => simp at h; subst h; rfl
+
+/-- 23E -/
+theorem f23E_reproduces (s : Text) (v : F23E) (h : F23E.parse s = .ok v) : F23E.ser v = s := by
+  unfold F23E.parse at h
+  split at h; · cases h
+  rename_i hasc
+  split at h; · cases h
+  rename_i hlen
+  have ha : isAsciiT s = true := by simpa using hasc
+  have hb := blen_ascii s ha
+  have hl : 4 ≤ s.length := by
+    have : ¬ blen s < 4 := by simpa using hlen
+    omega
+  rw [bslice_ascii s 0 4 ha (by omega) hl] at h
+  simp only [Res.bind_ok] at h
+  split at h; · cases h
+  split at h
+  · rename_i hgt
+    have hl5 : 5 ≤ s.length := by
+      have : blen s > 4 := by simpa using hgt
+      omega
+    rw [bfrom_ascii s 4 ha (by omega), bfrom_ascii s 5 ha hl5] at h
+    simp only [Res.bind_ok] at h
+    split at h; · cases h
+    rename_i hhead
+    split at h; · cases h
+    split at h; · cases h
+    obtain ⟨_, _, h3⟩ := bind_ok_inv h
+    cases h3
+    unfold F23E.ser
+    simp only
+    have hh : (s.drop 4).head? = some '/' := by simpa using hhead
+    have e1 := head_tail_of_head hh
+    have e2 : (s.drop 4).tail = s.drop 5 := by rw [List.tail_drop]
+    rw [e2] at e1
+    calc (s.drop 0).take (4 - 0) ++ '/' :: s.drop 5 = s.take 4 ++ s.drop 4 := by rw [← e1]; simp
+      _ = s := List.take_append_drop 4 s
+  · rename_i hle
+    cases h
+    unfold F23E.ser
+    simp only [List.append_nil]
+    have : s.length = 4 := by
+      have : ¬ blen s > 4 := by simpa using hle
+      omega
+    simp [List.take_of_length_le (Nat.le_of_eq this)]
+
+theorem stable_23E : Stable F23E.parse F23E.ser := stable_of_reproduces _ _ f23E_reproduces
+
+theorem ofOption_ok {α : Type} {o : Option α} {a : α} (h : Res.ofOption o = .ok a) : o = some a := by
+  cases o with
+  | none => simp [Res.ofOption] at h
+  | some x => simp [Res.ofOption] at h; subst h; rfl
+
+theorem hhmm_parse (t : Text) (tm : Nat × Nat) (h : parseTimeHHMM t = some tm) : hhmm tm = t := by
+  obtain ⟨hh, mm⟩ := tm
+  obtain ⟨a, b, c, d, ha, hb, hc, hd, rfl, rfl, rfl, _, _⟩ := (C11.time_accept_iff t hh mm).mp h
+  unfold hhmm
+  simp only
+  rw [C11.fmt2_digits ha hb, C11.fmt2_digits hc hd]
+  rfl
+
+/-- 11 -/
+theorem f11_reproduces (s : Text) (v : F11) (h : F11.parse s = .ok v) : F11RS.ser v = s := by
+  unfold F11.parse at h
+  split at h; · cases h
+  rename_i hasc
+  split at h; · cases h
+  rename_i hlen
+  have ha : isAsciiT s = true := by simpa using hasc
+  have hl : s.length = 9 := by
+    have : blen s = 9 := by simpa using hlen
+    rw [blen_ascii s ha] at this; exact this
+  rw [bto_ascii s 3 ha (by omega)] at h
+  simp only [Res.bind_ok] at h
+  obtain ⟨_, _, h⟩ := bind_ok_inv h
+  rw [bslice_ascii s 3 9 ha (by omega) (by omega)] at h
+  simp only [Res.bind_ok] at h
+  obtain ⟨_, _, h⟩ := bind_ok_inv h
+  obtain ⟨date, hd, h⟩ := bind_ok_inv h
+  cases h
+  have hp := C11.print_parse _ _ (ofOption_ok hd)
+  unfold F11RS.ser
+  simp only [Option.getD, List.append_nil]
+  rw [hp]
+  match s, hl with
+  | [c0, c1, c2, c3, c4, c5, c6, c7, c8], _ => rfl
+
+theorem stable_11 : Stable F11.parse F11RS.ser := stable_of_reproduces _ _ f11_reproduces
+
+/-- 13D -/
+theorem f13D_reproduces (s : Text) (v : F13D) (h : F13D.parse s = .ok v) : F13D.ser v = s := by
+  unfold F13D.parse at h
+  split at h; · cases h
+  rename_i hasc
+  split at h; · cases h
+  rename_i hlen
+  have ha : isAsciiT s = true := by simpa using hasc
+  have hl : s.length = 15 := by
+    have : blen s = 15 := by simpa using hlen
+    rw [blen_ascii s ha] at this; exact this
+  rw [bslice_ascii s 0 6 ha (by omega) (by omega)] at h
+  simp only [Res.bind_ok] at h
+  obtain ⟨date, hd, h⟩ := bind_ok_inv h
+  rw [bslice_ascii s 6 10 ha (by omega) (by omega)] at h
+  simp only [Res.bind_ok] at h
+  obtain ⟨_, _, h⟩ := bind_ok_inv h
+  obtain ⟨time, ht, h⟩ := bind_ok_inv h
+  obtain ⟨c, hc⟩ : ∃ c, s[10]? = some c := ⟨s[10], List.getElem?_eq_getElem (by omega)⟩
+  rw [hc] at h
+  simp only [Res.unwrap, Res.bind_ok] at h
+  split at h; · cases h
+  rw [bslice_ascii s 11 15 ha (by omega) (by omega)] at h
+  simp only [Res.bind_ok] at h
+  obtain ⟨off, hoff, h⟩ := bind_ok_inv h
+  obtain ⟨_, _, h⟩ := bind_ok_inv h
+  obtain ⟨_, _, h⟩ := bind_ok_inv h
+  cases h
+  have hoff' : off = List.take (15 - 11) (List.drop 11 s) := by
+    unfold parseExactLength at hoff; split at hoff
+    · cases hoff; rfl
+    · cases hoff
+  have hp := C11.print_parse _ _ (ofOption_ok hd)
+  have hq := hhmm_parse _ _ (ofOption_ok ht)
+  unfold F13D.ser
+  simp only
+  rw [hp, hq, hoff']
+  have e10 : s.drop 10 = c :: s.drop 11 := by
+    have hlt : 10 < s.length := by omega
+    have : s[10] = c := by
+      have := List.getElem?_eq_getElem hlt
+      rw [this] at hc; exact Option.some.inj hc
+    rw [← this]; exact List.drop_eq_getElem_cons hlt
+  have e11 : (s.drop 11).take (15 - 11) = s.drop 11 := List.take_of_length_le (by simp [List.length_drop]; omega)
+  rw [e11]
+  have e6 : (s.drop 6).take (10 - 6) ++ s.drop 10 = s.drop 6 := by
+    have := List.take_append_drop 4 (s.drop 6)
+    rw [List.drop_drop] at this
+    simpa using this
+  calc (s.drop 0).take (6 - 0) ++ (s.drop 6).take (10 - 6) ++ c :: s.drop 11
+      = s.take 6 ++ ((s.drop 6).take (10 - 6) ++ s.drop 10) := by rw [e10]; simp
+    _ = s.take 6 ++ s.drop 6 := by rw [e6]
+    _ = s := List.take_append_drop 6 s
+
+theorem stable_13D : Stable F13D.parse F13D.ser := stable_of_reproduces _ _ f13D_reproduces
+
+/-- 13C -/
+theorem f13C_reproduces (s : Text) (v : F13C) (h : F13C.parse s = .ok v) : F13C.ser v = s := by
+  unfold F13C.parse at h
+  split at h; · cases h
+  rename_i hasc
+  split at h; · cases h
+  have ha : isAsciiT s = true := by simpa using hasc
+  split at h
+  · rename_i rest _
+    split at h; · cases h
+    rename_i p hfind
+    simp only at h
+    split at h; · cases h
+    split at h; · cases h
+    split at h; · cases h
+    rename_i hlen
+    have hsplit := (findChar_split hfind).1
+    have har : isAsciiT (rest.drop (p + 1)) = true := by
+      have : isAsciiT rest = true := by
+        have := isAsciiT_drop ('/' :: rest) 1 ha
+        simpa using this
+      exact isAsciiT_drop rest (p + 1) this
+    generalize rest.drop (p + 1) = rem at *
+    have hl : rem.length = 9 := by
+      have : blen rem = 9 := by simpa using hlen
+      rw [blen_ascii rem har] at this; exact this
+    rw [bslice_ascii rem 0 4 har (by omega) (by omega)] at h
+    simp only [Res.bind_ok] at h
+    obtain ⟨_, _, h⟩ := bind_ok_inv h
+    obtain ⟨time, ht, h⟩ := bind_ok_inv h
+    obtain ⟨c, hc⟩ : ∃ c, rem[4]? = some c := ⟨rem[4], List.getElem?_eq_getElem (by omega)⟩
+    rw [hc] at h
+    simp only [Res.unwrap, Res.bind_ok] at h
+    split at h; · cases h
+    rw [bslice_ascii rem 5 9 har (by omega) (by omega)] at h
+    simp only [Res.bind_ok] at h
+    obtain ⟨off, hoff, h⟩ := bind_ok_inv h
+    obtain ⟨_, _, h⟩ := bind_ok_inv h
+    obtain ⟨_, _, h⟩ := bind_ok_inv h
+    cases h
+    have hoff' : off = List.take (9 - 5) (List.drop 5 rem) := by
+      unfold parseExactLength at hoff; split at hoff
+      · cases hoff; rfl
+      · cases hoff
+    have hq := hhmm_parse _ _ (ofOption_ok ht)
+    unfold F13C.ser
+    simp only
+    rw [hq, hoff']
+    have e4 : rem.drop 4 = c :: rem.drop 5 := by
+      have hlt : 4 < rem.length := by omega
+      have : rem[4] = c := by
+        have := List.getElem?_eq_getElem hlt
+        rw [this] at hc; exact Option.some.inj hc
+      rw [← this]; exact List.drop_eq_getElem_cons hlt
+    have e5 : (rem.drop 5).take (9 - 5) = rem.drop 5 := List.take_of_length_le (by simp [List.length_drop]; omega)
+    rw [e5]
+    have e0 : (rem.drop 0).take (4 - 0) ++ c :: rem.drop 5 = rem := by
+      rw [← e4]; simp
+    conv => rhs; rw [hsplit, ← e0]
+    simp
+  · cases h
+
+theorem stable_13C : Stable F13C.parse F13C.ser := stable_of_reproduces _ _ f13C_reproduces
+
+theorem guard_ok {b : Bool} {u : Unit} (h : Res.guard b = .ok u) : b = true := by
+  unfold Res.guard at h; split at h
+  · assumption
+  · cases h
+
+theorem all_isDigit_iff (t : Text) : t.all Char.isDigit = t.all isDigitC := by
+  induction t with
+  | nil => rfl
+  | cons c cs ih => simp [List.all_cons, isDigit_iff, ih]
+
+/-- what a numeric component that was read satisfies -/
+theorem numRead {c : Text} {k mx n : Nat} (hk : ¬ blen c > k) (hd : c.all Char.isDigit = true) (hu : parseUInt c mx = .ok n) :
+    c.length ≤ k ∧ c ≠ [] ∧ n = digitsVal c 0 ∧ n ≤ mx ∧ n < 10 ^ k := by
+  have hasc := all_digit_ascii c hd
+  have hb := blen_ascii c hasc
+  unfold parseUInt at hu
+  split at hu; · cases hu
+  rename_i hne
+  simp only at hu
+  split at hu
+  · rename_i hle
+    cases hu
+    have hl : c.length ≤ k := by omega
+    have hlt := digitsVal_lt c 0 (by rw [← all_isDigit_iff]; exact hd)
+    refine ⟨hl, ?_, rfl, hle, ?_⟩
+    · intro h0; subst h0; simp at hne
+    · have : 10 ^ c.length ≤ 10 ^ k := Nat.pow_le_pow_right (by decide) hl
+      omega
+  · cases hu
+
+/-- what is written for a number is read back as that number -/
+theorem numWrite (n w k mx : Nat) (hk : 0 < k) (hw : w ≤ k) (hn : n < 10 ^ k) (hm : n ≤ mx) :
+    ¬ blen (padLeft (natDigits n) w) > k ∧ (padLeft (natDigits n) w).all Char.isDigit = true ∧
+    parseUInt (padLeft (natDigits n) w) mx = .ok n ∧ padLeft (natDigits n) w ≠ [] ∧
+    ∀ c ∈ padLeft (natDigits n) w, c ≠ '/' := by
+  have hall : (padLeft (natDigits n) w).all isDigitC = true := padLeft_all _ _ (natDigits_all n)
+  have hall' : (padLeft (natDigits n) w).all Char.isDigit = true := by rw [all_isDigit_iff]; exact hall
+  have hasc := all_digit_ascii _ hall'
+  have hlen : (padLeft (natDigits n) w).length ≤ k := by
+    have := natDigits_length_le k n hk hn
+    unfold padLeft
+    simp only [List.length_append, List.length_replicate]
+    omega
+  have hne : padLeft (natDigits n) w ≠ [] := by
+    unfold padLeft
+    intro h
+    have := natDigits_ne_nil n
+    simp at h
+    exact this h.2
+  refine ⟨by rw [blen_ascii _ hasc]; omega, hall', ?_, hne, ?_⟩
+  · unfold parseUInt
+    have : (padLeft (natDigits n) w).isEmpty = false := by
+      cases hh : padLeft (natDigits n) w with
+      | nil => exact absurd hh hne
+      | cons _ _ => rfl
+    simp only [this]
+    have hv : digitsVal (padLeft (natDigits n) w) 0 = n := by
+      unfold padLeft
+      rw [digitsVal_zeros _ 0, digitsVal_natDigits]
+    simp [hv, hm]
+  · intro c hc h
+    subst h
+    rw [List.all_eq_true] at hall
+    have := hall _ hc
+    revert this; decide
+
+theorem padLeft_zero (t : Text) : padLeft t 0 = t := by simp [padLeft]
+
+/-- statement number / sequence number written with the sequence number padded to `w` digits -/
+def Stmt.serW (w : Nat) (v : Stmt) : Text :=
+  match v.seq with
+  | some q => natDigits v.number ++ '/' :: padLeft (natDigits q) w
+  | none => natDigits v.number
+
+theorem ser28_eq (v : Stmt) : F28.ser v = Stmt.serW 2 v := by
+  unfold F28.ser Stmt.serW; cases v.seq <;> rfl
+
+theorem ser28C_eq (v : Stmt) : F28C.ser v = Stmt.serW 0 v := by
+  unfold F28C.ser Stmt.serW; cases v.seq <;> simp [padLeft_zero]
+
+theorem contains_false_of_ne (t : Text) (c : Char) (h : ∀ x ∈ t, x ≠ c) : t.contains c = false := by
+  induction t with
+  | nil => rfl
+  | cons a r ih =>
+    have ha : a ≠ c := h a (by simp)
+    have := ih (fun x hx => h x (by simp [hx]))
+    rw [List.contains_cons, this]
+    simp only [Bool.or_false, beq_eq_false_iff_ne, ne_eq]
+    exact fun e => ha e.symm
+
+theorem stmt_stable (seqLen seqMax w : Nat) (hs : 0 < seqLen) (hw : w ≤ seqLen) :
+    Stable (Stmt.parse seqLen seqMax) (Stmt.serW w) := by
+  intro s v h
+  unfold Stmt.parse at h
+  simp only at h
+  split at h; · cases h
+  split at h; · cases h
+  rename_i hk
+  obtain ⟨_, hd, h⟩ := bind_ok_inv h
+  have hd' := guard_ok hd
+  obtain ⟨n, hn, h⟩ := bind_ok_inv h
+  obtain ⟨_, _, _, hmax, hlt⟩ := numRead hk hd' hn
+  obtain ⟨w1, w2, w3, w4, w5⟩ := numWrite n 0 5 u32Max (by decide) (by decide) hlt hmax
+  rw [padLeft_zero] at w1 w2 w3 w4 w5
+  split at h
+  · rename_i q' hq'
+    split at h; · cases h
+    rename_i hk2
+    obtain ⟨_, hd2, h⟩ := bind_ok_inv h
+    have hd2' := guard_ok hd2
+    obtain ⟨q, hq, h⟩ := bind_ok_inv h
+    cases h
+    obtain ⟨_, _, _, hmax2, hlt2⟩ := numRead hk2 hd2' hq
+    obtain ⟨u1, u2, u3, u4, u5⟩ := numWrite q w seqLen seqMax hs hw hlt2 hmax2
+    unfold Stmt.serW Stmt.parse
+    simp only
+    rw [splitAtFirst_append '/' _ _ w5 u4]
+    simp only [Option.isNone_some, Bool.false_and, Bool.false_eq_true, if_false]
+    simp only [w1, if_false]
+    unfold parseNumeric
+    simp only [w2, Res.guard, if_true, Res.bind_ok, w3, u1, if_false, u2, u3, Res.pure_eq]
+  · cases h
+    unfold Stmt.serW Stmt.parse
+    simp only
+    have hsp : splitAtFirst '/' (natDigits n) = (natDigits n, none) := by
+      unfold splitAtFirst; rw [findChar_none _ w5]
+    rw [hsp]
+    simp only [contains_false_of_ne _ _ w5, Bool.and_false, Bool.false_eq_true, if_false]
+    simp only [w1, if_false]
+    unfold parseNumeric
+    simp only [w2, Res.guard, if_true, Res.bind_ok, w3, Res.pure_eq]
+
+/-- 28 (`5n[/2n]`, sequence number written with two digits) and 28C (`5n[/5n]`) -/
+theorem stable_28 : Stable F28.parse F28.ser := by
+  intro s v h
+  rw [ser28_eq]
+  exact stmt_stable 2 255 2 (by decide) (by decide) s v h
+
+theorem stable_28C : Stable F28C.parse F28C.ser := by
+  intro s v h
+  rw [ser28C_eq]
+  exact stmt_stable 5 u32Max 0 (by decide) (by decide) s v h
+
+/-- 28D (`5n/5n`, both numbers written with at least three digits) -/
+theorem stable_28D : Stable F28D.parse F28D.ser := by
+  intro s v h
+  unfold F28D.parse at h
+  simp only at h
+  split at h; · cases h
+  rename_i hk
+  obtain ⟨_, hd, h⟩ := bind_ok_inv h
+  have hd' := guard_ok hd
+  obtain ⟨i, hi, h⟩ := bind_ok_inv h
+  obtain ⟨_, _, _, hmax, hlt⟩ := numRead hk hd' hi
+  obtain ⟨w1, w2, w3, w4, w5⟩ := numWrite i 3 5 u32Max (by decide) (by decide) hlt hmax
+  split at h
+  · cases h
+  · rename_i t' ht'
+    split at h; · cases h
+    rename_i hk2
+    obtain ⟨_, hd2, h⟩ := bind_ok_inv h
+    have hd2' := guard_ok hd2
+    obtain ⟨n, hn, h⟩ := bind_ok_inv h
+    obtain ⟨_, _, _, hmax2, hlt2⟩ := numRead hk2 hd2' hn
+    obtain ⟨u1, u2, u3, u4, u5⟩ := numWrite n 3 5 u32Max (by decide) (by decide) hlt2 hmax2
+    split at h; · cases h
+    rename_i hin
+    split at h; · cases h
+    rename_i hz
+    cases h
+    unfold F28D.ser F28D.parse
+    simp only
+    rw [splitAtFirst_append '/' _ _ w5 u4]
+    simp only [w1, if_false]
+    unfold parseNumeric
+    simp only [w2, Res.guard, if_true, Res.bind_ok, w3, u1, if_false, u2, u3, hin, hz, Res.pure_eq]
+    simp
+
+/-- 51A -/
+theorem f51A_reproduces (s : Text) (v : OptA) (h : F51A.parse s = .ok v) : F51A.ser v = s := by
+  unfold F51A.parse at h
+  split at h
+  · cases h
+  · cases h
+  · rename_i pid rem hvia
+    unfold F51A.viaNl at hvia
+    split at hvia
+    · rename_i p hfind
+      split at hvia
+      · rename_i id hpid
+        cases hvia
+        have e1 := pid_value _ _ hpid
+        split at h
+        · rename_i b hb
+          cases h
+          have e2 := parseBic_value _ _ hb
+          subst e2
+          unfold F51A.ser
+          simp only
+          rw [← e1]
+          exact (findChar_split hfind).1.symm
+        · cases h
+        · cases h
+      · cases hvia
+      · cases hvia
+      · cases hvia
+    · cases hvia
+  · split at h; · cases h
+    split at h
+    · rename_i b hb
+      cases h
+      have e2 := parseBic_value _ _ hb
+      subst e2
+      rfl
+    · cases h
+    · cases h
+
+theorem stable_51A : Stable F51A.parse F51A.ser := stable_of_reproduces _ _ f51A_reproduces
+
+/-- 11R, 11S -/
+theorem f11RS_reproduces (s : Text) (v : F11) (h : F11RS.parse s = .ok v) : F11RS.ser v = s := by
+  unfold F11RS.parse at h
+  split at h; · cases h
+  rename_i hasc
+  split at h; · cases h
+  rename_i hlen
+  have ha : isAsciiT s = true := by simpa using hasc
+  have hl : 3 ≤ s.length := by
+    have : ¬ blen s < 3 := by simpa using hlen
+    rw [blen_ascii s ha] at this; omega
+  rw [bto_ascii s 3 ha hl, bfrom_ascii s 3 ha hl] at h
+  simp only [Res.bind_ok] at h
+  obtain ⟨_, _, h⟩ := bind_ok_inv h
+  have ha3 := isAsciiT_drop s 3 ha
+  split at h; · cases h
+  rename_i hlen2
+  have hl2 : 6 ≤ (s.drop 3).length := by
+    have : ¬ blen (s.drop 3) < 6 := by simpa using hlen2
+    rw [blen_ascii _ ha3] at this; omega
+  rw [bto_ascii _ 6 ha3 hl2, bfrom_ascii _ 6 ha3 hl2] at h
+  simp only [Res.bind_ok] at h
+  obtain ⟨_, _, h⟩ := bind_ok_inv h
+  obtain ⟨date, hd, h⟩ := bind_ok_inv h
+  have hp := C11.print_parse _ _ (ofOption_ok hd)
+  split at h; · cases h
+  have ha9 := isAsciiT_drop _ 6 ha3
+  have hb9 := blen_ascii _ ha9
+  have key : ∀ r : Text, r = (s.drop 3).drop 6 → s.take 3 ++ printYYMMDD date ++ r = s := by
+    intro r hr
+    rw [hp, hr, List.append_assoc, List.take_append_drop 6, List.take_append_drop 3]
+  split at h
+  · rename_i h0
+    cases h
+    unfold F11RS.ser; simp only [Option.getD, List.append_nil]
+    have : (s.drop 3).drop 6 = [] := List.eq_nil_of_length_eq_zero (by omega)
+    have := key [] this.symm
+    simpa using this
+  · cases h
+    unfold F11RS.ser; simp only [Option.getD, List.append_nil]
+    exact key _ rfl
+  · cases h
+    unfold F11RS.ser; simp only [Option.getD, List.append_nil]
+    have := key _ rfl
+    simpa [List.append_assoc] using this
+  · rename_i h10
+    have : 4 ≤ ((s.drop 3).drop 6).length := by omega
+    rw [bto_ascii _ 4 ha9 this, bfrom_ascii _ 4 ha9 this] at h
+    simp only [Res.bind_ok, Res.pure_eq] at h
+    cases h
+    unfold F11RS.ser; simp only [Option.getD]
+    have := key _ rfl
+    rw [List.append_assoc (s.take 3 ++ printYYMMDD date), List.take_append_drop]
+    exact this
+  · cases h
+
+theorem stable_11RS : Stable F11RS.parse F11RS.ser := stable_of_reproduces _ _ f11RS_reproduces
 
 /-! ### Message level: what the serialisers write is read back exactly
 
